@@ -256,6 +256,10 @@ def expr_tokens(e, ctx=0):
                 toks.append(Tok(","))
             toks += expr_tokens(x, 0)
         return toks + [Tok(")")]
+    if k == "member":      # `o.m` without a call (only dynamically typed receivers pass the resolver)
+        o = e["o"]
+        recv = ([Tok("(")] + expr_tokens(o, 0) + [Tok(")")]) if o["k"] == "num" else expr_tokens(o, POSTFIX)
+        return recv + [Tok("."), Tok(e["m"])]
     if k == "mcall":
         o = e["o"]
         if o["k"] == "num":
@@ -303,6 +307,8 @@ def stmt_tokens(s, depth, out):
         for i in seq(s["is"]):
             out += [Tok("[")] + expr_tokens(i) + [Tok("]")]
         out += [Tok("get")] + expr_tokens(s["e"])
+    elif k == "setx":       # assignment to an arbitrary index target (the base need not be a variable)
+        out += expr_tokens(s["t"], POSTFIX) + [Tok("get")] + expr_tokens(s["e"])
     elif k == "expr":
         out += expr_tokens(s["e"])
     elif k == "if":
